@@ -51,7 +51,7 @@ func (t *token) String() string {
 }
 
 func (t *token) Char() rune {
-	value, _, _, _ := strconv.UnquoteChar(t.Text[1:len(t.Text)-1], '\\')
+	value, _, _, _ := strconv.UnquoteChar(t.Text[1:len(t.Text)-1], '\'')
 	return value
 }
 
